@@ -203,4 +203,28 @@ CHECKS = {
             job("sqlite", "c12", ["TestC12SQLite"], 60, 1000, 2, 6),
         ],
     },
+    "C05": {
+        "level": "exploration",
+        "manifest": {
+            "technique": "property-based testing + coverage-guided fuzzing with an invariant oracle: rapid-generated structure-aware corruptions of valid images (page pointers, cell pointer arrays, counts, page types, payload/rowid/header/serial-type varints, truncation, random bytes, journals), lying sqlite_master catalogues with generated and hostile SQL text, the database/sql driver on corrupted files, and native go fuzzing of the same worker in the thorough tier; oracle = no panic, no process death, page reads per operation under a budget computed by the harness' own shape analysis of the input",
+            "level_text": "Generated-input search with an invariant oracle (returns normally, bounded work) over every public operation (Open, Tables, Indexes, Info, Schema, Def, Columns, Select*, IndexedSelect*, PKSelect, low-level Scan/ScanMin/ScanEq/ScanRange/Rowid, Row.Scan, database/sql). Sampled; finds crashes and unbounded loops, does not show their absence.",
+            "level_note": "Bounded work is judged with a page-read budget derived from a dynamic-programming bound of an honest traversal; inputs on which the reader's recursion limit of 31 permits a large (but bounded) traversal (shared children, interior cycles: predicted > 2000 page visits) are excluded and counted. A 60 s watchdog only confirms hangs that repeat. Fatal process deaths are re-run and count only if they repeat.",
+        },
+        "rule": ("mutate: valid builder image (0-20 rows per tree, indexes, WITHOUT ROWID, overflow, page sizes 512/1024/4096) + 0-3 field mutations chosen by class (pointers / page header numbers / page type / varints) "
+                 "with hostile values (self, other pages, 0, out of range; 0, U+-1, 0xFFFF; 9-byte negative and huge varints, serial types 10/11), optional random byte flips, truncation at any per-mille, "
+                 "arbitrary or nearly valid journal files; schema: the builder's catalogue made to lie in 1-3 ways (other SQL text from a hostile list / the CREATE grammar / random runes, other root page, "
+                 "other type/name/tbl_name, short/long/wrong-class rows) plus extra objects; driver: mutated files through database/sql; raw: header + random pages. Non-trivial = at least one mutation / lie. "
+                 "Distinct = fingerprint of the case spec."),
+        "assumptions": ["an honest reader visits a page at most once per path and follows an overflow chain over distinct pages only"],
+        "min_nontrivial": {"quick": 3000, "thorough": 50000},
+        "required_classes": ["mut:cell.child", "mut:ovfl.next", "mut:cell.ovfl", "mut:page.cellptr", "mut:rec.serial", "mut:cell.paysize", "mut:truncated", "mut:journal", "schema:rows", "driver", "raw"],
+        "timeout": {"quick": 400, "thorough": 2400},
+        "jobs": [
+            job("mutate", "c05", ["TestC05Mutate"], 2500, 60000, 3, 10),
+            job("schema", "c05", ["TestC05Schema"], 1500, 30000, 2, 6),
+            job("driver", "c05", ["TestC05Driver"], 300, 6000, 1, 4),
+            job("raw", "c05", ["TestC05Raw"], 3000, 100000, 1, 2),
+            job("fuzz", "c05", ["FuzzC05Image"], 1, 1, 1, 1, fuzz={"target": "FuzzC05Image", "convert": "TestC05FromFuzzFile", "time": {"quick": 0, "thorough": 420}}),
+        ],
+    },
 }
